@@ -76,7 +76,7 @@ def api_json(variant='exit'):
 
 
 def esc(s):
-    return s.replace('\\', '\\\\').replace('\t', '\\t').replace('\n', '\\n').replace('\r', '\\r')
+    return s.replace('\\', '\\\\').replace('\t', '\\t').replace('\n', '\\n').replace('\r', '\\r').replace('\x00', '\\0')
 
 
 def run_driver(exe, script_lines, log_path, fill=None, timeout=120, env=None):
